@@ -22,7 +22,10 @@ def test_and_set_rules(rep: Report, cl: ClassLocks, m, flag: str, effect_pred, e
     region; the effect runs only on the path that performed the write (directly or through a local set there)."""
     acc = cl.accesses(m)
     writes = [a for a in acc if a.field == flag and a.mode == "w"]
-    rep.require(writes, f"write of {flag} in {m.ref}")
+    if not writes:
+        rep.ob(f"{prefix}1-atomic-test-and-set", m, f"{m.qual}: the winning dispose() raises self.{flag}", False,
+               f"{m.qual} never sets self.{flag}: every dispose() finds the flag unset and runs the action again")
+        return
     win_sites = []
     for w in writes:
         wn = w.site.stmt
